@@ -132,8 +132,16 @@ class Interp:
                     if ins:
                         k = op['x'] % len(ins)
                         ins = ins[k:] + ins[:k]
-                    if op.get('invalid'):
+                    bad = op.get('invalid')
+                    if bad is True or bad == 'drop' or (bad and len(ins) < 2):
                         ins = ins[:-1] if ins else ['__absent__']
+                    elif bad == 'repeat':
+                        ins[-1] = ins[0]  # right length, every entry an INPUT gate - one twice, one missing
+                    elif bad == 'non_input':
+                        others = [l for l in self._labels(work) if l not in ins]
+                        ins[-1] = others[op['x'] % len(others)] if others else '__absent__'
+                    elif bad == 'extra':
+                        ins.append(ins[0])
                     work.set_inputs(ins)
                     ins.append('__junk__')
                 elif name == 'order_inputs':
@@ -392,9 +400,10 @@ def make_machine(tier, hooks):
         def set_outputs(self, c, xs):
             self._do({'op': 'set_outputs', 'c': c, 'xs': xs})
 
-        @rule(c=I, x=I, invalid=st.integers(0, 5))
+        @rule(c=I, x=I, invalid=st.integers(0, 9))
         def set_inputs(self, c, x, invalid):
-            self._do({'op': 'set_inputs', 'c': c, 'x': x, 'invalid': invalid == 0})
+            self._do({'op': 'set_inputs', 'c': c, 'x': x,
+                      'invalid': {0: 'drop', 1: 'repeat', 2: 'non_input', 3: 'extra'}.get(invalid)})
 
         @rule(c=I, x=I, y=I, which=st.booleans())
         def order(self, c, x, y, which):
